@@ -91,7 +91,7 @@ where
     pub(super) fn op_mstream(&mut self) -> Result<(), ExecutionError> {
         // get the address from position 12 on the stack
         let ctx = self.system.ctx();
-        let addr = Self::get_valid_address(self.stack.get(12))?;
+        let addr = Self::get_valid_double_word_address(self.stack.get(12))?;
 
         // load two words from memory
         let words = self.chiplets.read_mem_double(ctx, addr);
@@ -108,7 +108,7 @@ where
         }
 
         // increment the address by 2
-        self.stack.set(12, Felt::from(addr + 2));
+        self.stack.set(12, Felt::new(addr as u64 + 2));
 
         // copy over the rest of the stack
         self.stack.copy_state(13);
@@ -190,7 +190,7 @@ where
     pub(super) fn op_pipe(&mut self) -> Result<(), ExecutionError> {
         // get the address from position 12 on the stack
         let ctx = self.system.ctx();
-        let addr = Self::get_valid_address(self.stack.get(12))?;
+        let addr = Self::get_valid_double_word_address(self.stack.get(12))?;
 
         // pop two words from the advice stack
         let words = self.host.borrow_mut().pop_adv_stack_dword(self)?;
@@ -210,7 +210,7 @@ where
         }
 
         // increment the address by 2
-        self.stack.set(12, Felt::from(addr + 2));
+        self.stack.set(12, Felt::new(addr as u64 + 2));
 
         // copy over the rest of the stack
         self.stack.copy_state(13);
@@ -262,6 +262,20 @@ where
             return Err(ExecutionError::MemoryAddressOutOfBounds(addr));
         }
         Ok(addr as u32)
+    }
+
+    /// Checks that both the provided address and the address following it are valid and returns
+    /// the former as a u32.
+    ///
+    /// # Errors
+    /// Returns an error if the provided address or the address following it is greater than
+    /// u32::MAX.
+    fn get_valid_double_word_address(addr: Felt) -> Result<u32, ExecutionError> {
+        let addr = Self::get_valid_address(addr)?;
+        if addr == u32::MAX {
+            return Err(ExecutionError::MemoryAddressOutOfBounds(addr as u64 + 1));
+        }
+        Ok(addr)
     }
 }
 
